@@ -15,8 +15,10 @@ EXPLANATION = (
     "tables; R12.2 default row / column names use one format in all writers and in the LP reader; R12.3 the floating-point LP writer "
     "prints with at least 16 digits after the leading one (17 significant), the MPS writer with %.15; R12.4 in the rational readers no "
     "floating-point function or temporary lies on the path from a token to a Rational (atof/strtod/stod, mpq_get_d, arithmetic with a "
-    "non-literal double; positive controls: the real readers do call atof). NOT decided: equivalence of the re-read LP, the dual "
-    "writer, MPS normalisations.")
+    "non-literal double; positive controls: the real readers do call atof); R12.5 no writer cuts a name (a %s conversion with a "
+    "precision only for strings bounded by it); R12.6 every formatted record fits the buffer it is printed into (the maximal width of "
+    "its conversions, with %f bounded only under a dominating magnitude test); R12.7 the writers are total over row / bound kinds (no "
+    "arm of a split on infinite sides throws). NOT decided: equivalence of the re-read LP, the dual writer, MPS normalisations.")
 
 REAL = 'spxlpbase_real.hpp'
 RAT = 'spxlpbase_rational.hpp'
@@ -59,6 +61,8 @@ def run(fb, rep, tier):
     names(fb, rep)
     precision(fb, rep)
     exact(fb, rep)
+    truncation(fb, rep)
+    totality(fb, rep)
 
 
 def one_in(fb, base, short, inst=None):
@@ -265,8 +269,14 @@ def precision(fb, rep):
         writers = [n for n in f.nodes if n.k == 'CallExpr' and n.short.startswith('LPFwrite')]
         rep.check(bool(writers) and all((calls[0].l, calls[0].i) < (w.l, w.i) for w in writers), 'R12.3', 'writeLPF|precision-first', '%s:%d' % (f.file, calls[0].l), 'precision is set before the first section is written', 'a section is written before the precision is set')
     m = one_in(fb, REAL, 'MPSwriteRecord')
-    fm = [n.v for n in lits(m) if '%' in n.v and 'lf' in n.v]
-    rep.check(bool(fm) and all('%.15lf' in x for x in fm), 'R12.3', 'MPSwriteRecord|precision', m.where(), 'formats %s' % fm, 'MPS numbers are printed with %s, the property promises 15 decimals' % fm)
+    # the record writer and the value formatter it calls: every floating conversion prints at least 15 digits after the point
+    scope = [m] + [fb.funcs[c.u] for c in m.calls() if c.u in fb.funcs and fb.funcs[c.u].file.endswith('/' + REAL) and fb.funcs[c.u].short.startswith('MPS')]
+    fm = []
+    for g in scope:
+        for n in lits(g):
+            fm += re.findall(r'%[-+ 0#]*\d*(?:\.(\d+))?(?:l|L)?([feEgG])', n.v)
+    okp = bool(fm) and all(pr != '' and int(pr) >= 15 for pr, cv in fm)
+    rep.check(okp, 'R12.3', 'MPSwriteRecord|precision', m.where(), 'floating conversions %s' % ['%%.%s%s' % x for x in fm], 'MPS numbers are printed with %s: the property promises 15 decimals' % ['%%.%s%s' % x for x in fm])
 
 
 def exact(fb, rep):
@@ -299,3 +309,207 @@ def exact(fb, rep):
         bad = [n for n in f.nodes if n.k == 'CallExpr' and n.short in ('__gmpq_get_d', 'mpq_get_d')]
         if any('mpq' in t for _, t in f.params):
             rep.check(not bad, 'R12.4', 'SPxLPBase<Rational>::%s(%s)|gmp-exact' % (f.short, ','.join(M.short_t(t) for _, t in f.params)), f.where(), 'no mpq_get_d', 'decides on mpq_get_d(...) of rational input: tiny or huge values are misjudged')
+
+
+# ---------------------------------------------------------------------------------------------------
+CONV = re.compile(r'%([-+ 0#]*)(\d*)(?:\.(\d+))?(hh|h|ll|l|L|z)?([diouxXfFeEgGscp%])')
+
+
+def writer_functions(fb):
+    out = []
+    for f in fb.funcs.values():
+        base = f.file.rsplit('/', 1)[-1]
+        if base in (REAL, RAT) and re.match(r'^(MPSwrite|MPSformat|MPSget|LPFwrite|writeMPS|writeLPF|getColName|getRowName)', f.short or ''):
+            out.append(f)
+        elif base in ('spxbasis.hpp',) and f.short in ('writeBasis', 'getRowName', 'getColName'):
+            out.append(f)
+    return out
+
+
+def string_bound(fb, f, e, depth=0):
+    """maximal length of a const char* expression if it can be bounded: literals, conditionals of literals, a parameter whose every
+    call-site argument is bounded; None = unbounded (a name)"""
+    e = strip(e)
+    if e is None or depth > 3:
+        return None
+    if e.k == 'StringLiteral' and e.v is not None:
+        return len(e.v)
+    if e.k == 'ConditionalOperator':
+        a, b = string_bound(fb, f, e.kid('then'), depth + 1), string_bound(fb, f, e.kid('else'), depth + 1)
+        return None if a is None or b is None else max(a, b)
+    if e.k == 'ParenExpr' and e.c:
+        return string_bound(fb, f, e.kids[0], depth + 1)
+    if e.k == 'DeclRefExpr' and e.dk == 'parm':
+        k = [i for i, (pn, pt) in enumerate(f.params) if pn == e.n]
+        if not k:
+            return None
+        best = 0
+        sites = 0
+        for g in fb.funcs.values():
+            for c in g.calls():
+                if c.u == f.u and not g.in_assert(c):
+                    a = c.args()
+                    if k[0] < len(a):
+                        sites += 1
+                        if a[k[0]].k == 'CXXDefaultArgExpr' or strip(a[k[0]]).k in ('CXXNullPtrLiteralExpr', 'GNUNullExpr'):
+                            continue
+                        b = string_bound(fb, g, a[k[0]], depth + 1)
+                        if b is None:
+                            return None
+                        best = max(best, b)
+        return best if sites else None
+    if e.k == 'DeclRefExpr' and e.dk == 'local':
+        # a local const char* assigned only from literals
+        vals = [n.kids[1] for n in f.nodes if n.k == 'BinaryOperator' and n.o == '=' and render(n.kids[0]) == e.n]
+        vals += [n.kids[0] for n in f.nodes if n.k == 'VarDecl' and n.u == e.u and n.c]
+        bs = [string_bound(fb, f, v, depth + 1) for v in vals]
+        return None if (not bs or any(b is None for b in bs)) else max(bs)
+    return None
+
+
+def magnitude_bound(f, call, arg):
+    """decimal digits before the point that a floating argument can have at this call: K if a dominating test |arg| < 1eK exists"""
+    t = render(strip(arg))
+    t = re.sub(r'^\((double|long double|float|Real)\)', '', t).strip('()')
+    for a in f.ancestors(call):
+        if a.k != 'IfStmt':
+            continue
+        c = render(a.kid('cond'))
+        m = re.search(r'(?:spxAbs|fabs|std::fabs|abs)\(%s\) <=? ([0-9.]+e\+?(\d+)|1\d*)' % re.escape(t), c)
+        if m and any(x.i == call.i for x in a.kid('then').walk()):
+            try:
+                return len(str(int(float(m.group(1)))))
+            except ValueError:
+                return None
+    return None
+
+
+def buffer_size(fb, f, size_e, buf_e, depth=0):
+    """value of the size argument: a constant, sizeof of a local array, or a parameter resolved at every call site (minimum)"""
+    from c13 import const_int
+    sz = strip(size_e)
+    v = const_int(sz)
+    if v is not None:
+        return v
+    if sz.k == 'UnaryExprOrTypeTraitExpr':
+        if sz.v is not None:
+            return int(sz.v)
+        for x in f.nodes:
+            if x.k == 'VarDecl' and x.x.get('arr') and x.n in render(sz):
+                return int(x.x.get('arr'))
+    if sz.k == 'DeclRefExpr' and sz.dk == 'parm' and depth < 2:
+        k = [i for i, (pn, pt) in enumerate(f.params) if pn == sz.n]
+        vals = []
+        for g in fb.funcs.values():
+            for c in g.calls():
+                if c.u == f.u and k and k[0] < len(c.args()):
+                    vals.append(buffer_size(fb, g, c.args()[k[0]], None, depth + 1))
+        if vals and all(v is not None for v in vals):
+            return min(vals)
+    return None
+
+
+def truncation(fb, rep):
+    """R12.5 / R12.6: what the writers print must arrive in the file in full."""
+    rep.rule('R12.5', 'no writer cuts a row / column name: a %s conversion with a precision is applied only to strings whose length is bounded by that precision', floor=2)
+    rep.rule('R12.6', 'every formatted record fits the buffer it is printed into: the maximal width of the conversions does not exceed the size passed to spxSnprintf', floor=8)
+    wf = writer_functions(fb)
+    if len(wf) < 12:
+        raise AnalysisBroken('only %d writer functions found' % len(wf))
+    n5 = n6 = 0
+    for f in wf:
+        for c in f.calls():
+            if c.short not in ('spxSnprintf', 'snprintf', 'sprintf') or f.in_assert(c):
+                continue
+            a = c.args()
+            if len(a) < 3:
+                continue
+            fmt = strip(a[2])
+            if fmt.k != 'StringLiteral' or fmt.v is None:
+                rep.unrec('R12.6', '%s|%s' % (f.short, render(c)[:40]), '%s:%d' % (f.file, c.l), 'format is not a literal')
+                continue
+            size = buffer_size(fb, f, a[1], a[0])
+            width = 0
+            unbounded = None
+            ai = 3
+            key = '%s|%s' % (f.short, fmt.v[:30].replace('|', '/'))
+            wh = '%s:%d' % (f.file, c.l)
+            for m in CONV.finditer(fmt.v):
+                flags, w, prec, ln, cv = m.groups()
+                if cv == '%':
+                    width += 1
+                    continue
+                arg = a[ai] if ai < len(a) else None
+                ai += 1
+                mw = int(w) if w else 0
+                if cv == 's':
+                    if prec:
+                        n5 += 1
+                        b = string_bound(fb, f, arg) if arg is not None else None
+                        rep.check(b is not None and b <= int(prec), 'R12.5', key + '|%%.%ss(%s)' % (prec, render(arg)[:20] if arg is not None else ''), wh,
+                                  'the string is at most %s characters long' % b,
+                                  'the conversion %%%s%s.%ss cuts %s to %s characters although it can be longer (a name): different names become equal in the file, or two fields are glued together' % (flags, w, prec, render(arg)[:30] if arg is not None else '?', prec))
+                        width += max(mw, int(prec))
+                    else:
+                        b = string_bound(fb, f, arg) if arg is not None else None
+                        if b is None:
+                            unbounded = 'a string of unbounded length (%s)' % (render(arg)[:20] if arg is not None else '?')
+                        else:
+                            width += max(mw, b)
+                elif cv in 'dioux' or cv in 'X':
+                    width += max(mw, 20 if ln in ('l', 'll', 'z') else 11)
+                elif cv in 'eEgG':
+                    width += max(mw, (int(prec) if prec else 6) + 9)
+                elif cv in 'fF':
+                    k = magnitude_bound(f, c, arg) if arg is not None else None
+                    if k is None:
+                        unbounded = 'a %%.%sf conversion of %s, which needs up to 1 + 309 + 1 + %s characters' % (prec or '6', render(arg)[:20] if arg is not None else '?', prec or '6')
+                    else:
+                        width += max(mw, 1 + k + 1 + (int(prec) if prec else 6))
+                else:
+                    width += max(mw, 20)
+            lit = CONV.sub('', fmt.v)
+            width += len(lit)
+            n6 += 1
+            if size is None:
+                rep.unrec('R12.6', key, wh, 'buffer size %s not understood' % render(a[1]))
+            elif unbounded:
+                rep.bad('R12.6', key, wh, 'the record is printed into %d bytes but contains %s: what does not fit is cut off silently and the file holds a different value' % (size, unbounded))
+            else:
+                rep.check(width < size, 'R12.6', key, wh, 'at most %d characters into %d bytes' % (width, size),
+                          'the record can be %d characters long but is printed into %d bytes: the rest is cut off silently' % (width, size))
+    if n5 < 2 or n6 < 8:
+        raise AnalysisBroken('R12.5/6: only %d name conversions with a precision and %d formatted records found in the writers' % (n5, n6))
+
+
+def totality(fb, rep):
+    """R12.7: a writer is total over the kinds of rows and columns an LP can hold: the case split on the finiteness of the two sides
+    (bounds) has no arm that throws or aborts."""
+    rep.rule('R12.7', 'the writers handle every row / bound kind: no arm of a split on the finiteness of lhs/rhs (lower/upper) ends in a throw', floor=6)
+    wf = writer_functions(fb)
+    k = 0
+    for f in wf:
+        for n in f.nodes:
+            if n.k != 'IfStmt':
+                continue
+            c = render(n.kid('cond'))
+            if not re.search(r'infinity', c) or f.in_assert(n):
+                continue
+            # only the outermost if of a chain
+            if n.parent is not None and n.parent.k == 'IfStmt' and n.parent.kid('else') is not None and n.parent.kid('else').i == n.i:
+                continue
+            # walk the else-if chain
+            arms = []
+            cur = n
+            while cur is not None and cur.k == 'IfStmt':
+                arms.append((render(cur.kid('cond')), cur.kid('then')))
+                e = cur.kid('else')
+                if e is not None and e.k != 'IfStmt':
+                    arms.append(('else', e))
+                cur = e if (e is not None and e.k == 'IfStmt') else None
+            k += 1
+            thr = [(ct, a) for ct, a in arms if a is not None and any(x.k == 'CXXThrowExpr' for x in a.walk())]
+            rep.check(not thr, 'R12.7', '%s|split(%s)' % (f.short, c[:40]), '%s:%d' % (f.file, n.l), '%d arms, none throws' % len(arms),
+                      'the arm `%s` of the split on finite / infinite sides throws: an LP that holds such a row or bound (a free row) cannot be written' % (thr[0][0][:50] if thr else ''))
+    if k < 6:
+        raise AnalysisBroken('R12.7: only %d splits on infinity found in the writers' % k)
